@@ -29,6 +29,9 @@ class LambdaTokenTranslator(AbstractTranslator):
 
                 if parsed_literal[1]:
                     condition_value = parsed_literal[1]
+                    if condition_value.isdigit():
+                        # '007' is not a Python integer literal
+                        condition_value = str(int(condition_value))
                 else:
                     condition_value = expression
 
